@@ -155,6 +155,11 @@ Theorem from_wire_tr_erase : forall (wire : list Z) (start : nat),
 Proof. exact NameWire.from_wire_tr_erase. Qed.
 Print Assumptions from_wire_tr_erase.
 
+(* model note: from_wire_parser masks the first pointer octet with 0x3F, the model subtracts 192 *)
+Theorem pointer_mask_equiv : forall c : Z, 192 <= c < 256 -> Z.land c 63 = c - 192.
+Proof. exact NameWire.pointer_mask_equiv. Qed.
+Print Assumptions pointer_mask_equiv.
+
 (* ---- every producer: a valid name or a library exception, never a Python-level one ---- *)
 Theorem producers_valid :
   (forall ls, good (mk_name ls)) /\
